@@ -238,6 +238,9 @@ func cmdCheck(args []string) int {
 	if err != nil {
 		return undecided(err.Error())
 	}
+	if !*updateLock {
+		cfg.Expect = func(name string) bool { return lock[prop][name] }
+	}
 	results, missing, err := runProperty(g, prop, cfg, findings)
 	if err != nil {
 		return undecided(err.Error())
